@@ -11,4 +11,5 @@ INVARIANT StrictRefines
 INVARIANT PRefutesBlankPrefix
 INVARIANT PRefutesIdentity
 INVARIANT EmptyPrefixLoose
+INVARIANT PrefixIsWs
 CHECK_DEADLOCK FALSE
